@@ -49,6 +49,8 @@ enum Step {
   Timers,
   Clean,
   Wait,
+  /// a reader asks for single fragments of a sample
+  NackFrag { r: usize, sn: i64, frags: BTreeSet<u32> },
 }
 
 struct RemoteReader {
@@ -71,6 +73,11 @@ struct RemoteReader {
   /// single-reader samples written for somebody else while this reader was matched
   must_be_gapped: BTreeSet<i64>,
   acked_since_single: BTreeSet<i64>,
+  /// fragments requested by NACKFRAG (of samples the writer held then) and not yet sent to it
+  pending_frags: BTreeMap<i64, BTreeSet<u32>>,
+  nf_count: i32,
+  /// last sequence number written when this reader was (last) matched
+  matched_after: i64,
 }
 
 struct Written {
@@ -165,6 +172,9 @@ pub fn run(focus: Focus, choices: &[u8], _strict: bool) -> Outcome {
       gap_below: 0,
       must_be_gapped: BTreeSet::new(),
       acked_since_single: BTreeSet::new(),
+      pending_frags: BTreeMap::new(),
+      nf_count: 0,
+      matched_after: 0,
     })
     .collect();
   // readers 0,1 share a participant (prefix), 2,3 another one
@@ -264,6 +274,103 @@ pub fn run(focus: Focus, choices: &[u8], _strict: bool) -> Outcome {
     };
     steps.push(step);
   }
+  // NACKFRAG steps are drawn after everything else (saved inputs keep their meaning) and
+  // inserted into the script: a reader asks for fragments of a sample, often followed at some
+  // distance by an acknowledgment beyond it, a cleaning and the repair timers
+  if focus == Focus::C04 && nreaders > 0 && last_guess > 0 {
+    for _ in 0..c.pick(4) {
+      let r = c.pick(nreaders);
+      // by construction: mostly a sample that is written as fragments, asked for soon after it
+      // was written (so that it is usually still held), fragments that exist
+      let mut frag_writes: Vec<(usize, i64, u32)> = Vec::new();
+      let mut sn_at = 0i64;
+      for (i, st) in steps.iter().enumerate() {
+        if let Step::Write { len, .. } = st {
+          sn_at += 1;
+          if len + 4 > fsize {
+            frag_writes.push((i, sn_at, ((len + 4 + fsize - 1) / fsize) as u32));
+          }
+        }
+      }
+      let (at, sn, frags): (usize, i64, BTreeSet<u32>) = if !frag_writes.is_empty() && !c.chance(40) {
+        let (i, sn, total) = frag_writes[c.pick(frag_writes.len())];
+        let at = (i + 1 + c.pick(6)).min(steps.len());
+        let beyond = usize::from(c.chance(30));
+        (at, sn, (0..1 + c.pick(3)).map(|_| 1 + c.pick(total as usize + beyond) as u32).collect())
+      } else {
+        (c.pick(steps.len() + 1), 1 + c.pick(last_guess as usize) as i64, (0..1 + c.pick(3)).map(|_| 1 + c.pick(8) as u32).collect())
+      };
+      steps.insert(at, Step::NackFrag { r, sn, frags });
+      if c.chance(110) {
+        // the contradiction: the same reader acknowledges past the sample, the history is cleaned
+        let mut at2 = (at + 1 + c.pick(3)).min(steps.len());
+        steps.insert(at2, Step::AckNack { r, base: sn + 1 + c.pick(3) as i64, bits: BTreeSet::new(), num_bits: 0 });
+        at2 = (at2 + 1 + c.pick(2)).min(steps.len());
+        steps.insert(at2, Step::Clean);
+        at2 = (at2 + 1).min(steps.len());
+        steps.insert(at2, Step::Timers);
+      }
+    }
+    // One deliberate block at the end of the script: fragments of sample N are asked for, then
+    // everybody acknowledges N, N is cleaned away before the repair timer fires, and afterwards
+    // the same reader asks for fragments of a newer sample M that is still held. Every datagram
+    // is valid on its own. The request for M has to be served.
+    if c.chance(110) {
+      let mut frag_writes: Vec<(i64, u32)> = Vec::new();
+      let mut sn_at = 0i64;
+      for st in steps.iter() {
+        if let Step::Write { len, single } = st {
+          sn_at += 1;
+          if len + 4 > fsize && single.is_none() {
+            frag_writes.push((sn_at, ((len + 4 + fsize - 1) / fsize) as u32));
+          }
+        }
+      }
+      let total_written = sn_at;
+      // the reader that has acknowledged least so far
+      let mut running = vec![0i64; nreaders];
+      for st in steps.iter() {
+        if let Step::AckNack { r, base, .. } = st {
+          running[*r] = running[*r].max(*base);
+        }
+      }
+      let r = (0..nreaders).min_by_key(|x| running[*x]).unwrap_or(0);
+      // Cleaning keeps `limit` samples below the front acknowledged by every reliable reader. So
+      // the reader acknowledges up to B = N + limit + 1 (N can then be dropped), and M is a
+      // fragmented sample at or above B (not acknowledged, therefore still held).
+      let ns: Vec<(i64, u32)> = frag_writes.iter().copied().filter(|(sn, _)| sn + limit as i64 + 1 <= total_written + 1 && *sn >= running[r]).collect();
+      if let Some(&(n, n_total)) = ns.get(c.pick(ns.len().max(1))) {
+        let b = n + limit as i64 + 1;
+        let ms: Vec<(i64, u32)> = frag_writes.iter().copied().filter(|(sn, _)| *sn >= b).collect();
+        if let Some(&(m, m_total)) = ms.get(c.pick(ms.len().max(1))) {
+          steps.push(Step::Match { r });
+          steps.push(Step::NackFrag { r, sn: n, frags: [1 + c.pick(n_total as usize) as u32].into_iter().collect() });
+          for x in 0..nreaders {
+            steps.push(Step::AckNack { r: x, base: if x == r { b } else { total_written + 1 }, bits: BTreeSet::new(), num_bits: 0 });
+          }
+          steps.push(Step::Clean);
+          steps.push(Step::Timers);
+          steps.push(Step::NackFrag { r, sn: m, frags: [1 + c.pick(m_total as usize) as u32].into_iter().collect() });
+          steps.push(Step::Timers);
+          o.label("stale-nackfrag-block");
+        }
+      }
+    }
+    // a sane reader never lowers its base: the inserted acknowledgments must not make a later
+    // one look like a step backwards
+    let mut running = vec![0i64; nreaders];
+    for st in steps.iter_mut() {
+      if let Step::AckNack { r, base, bits, num_bits } = st {
+        if *base < running[*r] {
+          *base = running[*r];
+          let b = *base;
+          let nb = *num_bits;
+          bits.retain(|x| *x >= b.max(1) && *x < b + i64::from(nb));
+        }
+        running[*r] = *base;
+      }
+    }
+  }
   o.sample = format!(
     "history={history:?} transient_local={transient_local} fragment_size={fsize} readers={:?} steps={steps:?}",
     readers.iter().map(|r| (r.idx, r.reliable)).collect::<Vec<_>>()
@@ -339,6 +446,14 @@ pub fn run(focus: Focus, choices: &[u8], _strict: bool) -> Outcome {
                 if s != *t {
                   o.violate("c04.single-reader-leak", "datafrag", format!("step {stepno}: sample {sn} written for reader {s} only was sent as DATAFRAG to reader {t}"));
                   return;
+                }
+              }
+              if let Some(pf) = readers[*t].pending_frags.get_mut(&sn) {
+                for f in frag_start..frag_start + u32::from(frags_in_submessage) {
+                  pf.remove(&f);
+                }
+                if pf.is_empty() {
+                  readers[*t].pending_frags.remove(&sn);
                 }
               }
               let e = readers[*t].frag_rx.entry(sn).or_default();
@@ -463,6 +578,7 @@ pub fn run(focus: Focus, choices: &[u8], _strict: bool) -> Outcome {
           rr.acked_base = rr.acked_base.max(nb);
           let ab = rr.acked_base;
           rr.pending.retain(|s| *s >= ab);
+          rr.pending_frags.retain(|s, _| *s >= ab);
           if rr.reliable {
             for s in bits.iter().filter(|s| **s >= nb && **s < *base + i64::from(*num_bits)) {
               if *s >= 1 && *s <= last_sn {
@@ -499,6 +615,49 @@ pub fn run(focus: Focus, choices: &[u8], _strict: bool) -> Outcome {
         node.inject(&dg);
         hooks::tick_disarm();
       }
+      Step::NackFrag { r, sn, frags } => {
+        let rr = &mut readers[*r];
+        rr.nf_count += 1;
+        let mut dg = wire::rtps_header((2, 4), [1, 0x12], &rr.guid.prefix.bytes);
+        let (f, b) = wire::info_dst_body(true, &rig::node_prefix(0).bytes);
+        wire::push_submessage(&mut dg, wire::INFO_DST, f, &b, None);
+        let base = *frags.iter().next().unwrap_or(&1);
+        let top = *frags.iter().next_back().unwrap_or(&1);
+        let num_bits = top - base + 1;
+        let mut words = vec![0u32; ((num_bits + 31) / 32) as usize];
+        for fr in frags {
+          let bit = fr - base;
+          words[(bit / 32) as usize] |= 1u32 << (31 - bit % 32);
+        }
+        let (f, b) = wire::nackfrag_body(true, eid_bytes(rr.guid.entity_id), eid_bytes(weid), *sn, base, num_bits, &words, rr.nf_count);
+        wire::push_submessage(&mut dg, wire::NACK_FRAG, f, &b, None);
+        // model: fragments of a fragmented sample that the writer holds now, asked for by a matched
+        // reliable reader that has not acknowledged it, have to be sent to that reader
+        if rr.matched && rr.reliable && *sn >= rr.acked_base.max(1) {
+          if let Some(w) = written.get(sn) {
+            let held = node.writers[wi].writer.verif_history_get(SequenceNumber::from(*sn)).is_some();
+            let total = ((w.payload.len() + fsize - 1) / fsize) as u32;
+            // a Volatile late joiner is not owed the samples written before it was matched
+            let for_me = w.single.map_or(true, |x| x == rr.idx) && (transient_local || *sn > rr.matched_after);
+            if held && for_me && w.payload.len() > fsize {
+              let want: BTreeSet<u32> = frags.iter().copied().filter(|fr| *fr >= 1 && *fr <= total).collect();
+              if !want.is_empty() {
+                rr.pending_frags.entry(*sn).or_default().extend(want);
+                o.label("nackfrag-for-held-sample");
+                nontrivial = true;
+              }
+            } else {
+              o.label(if held { "nackfrag-for-unfragmented-or-foreign-sample" } else { "nackfrag-for-evicted-sample" });
+            }
+          }
+        }
+        if std::env::var_os("VERIF_WS_DEBUG").is_some() {
+          eprintln!("WS step {stepno} NackFrag r={r} sn={sn} frags={frags:?} matched={} reliable={} acked_base={} held={} model_pending={:?} history={:?}", readers[*r].matched, readers[*r].reliable, readers[*r].acked_base, node.writers[wi].writer.verif_history_get(SequenceNumber::from(*sn)).is_some(), readers[*r].pending_frags, node.writers[wi].writer.verif_history_sns());
+        }
+        hooks::tick_reset(5_000_000);
+        node.inject(&dg);
+        hooks::tick_disarm();
+      }
       Step::Match { r } => {
         let rr = &mut readers[*r];
         let q = reader_qos(rr.reliable);
@@ -509,6 +668,8 @@ pub fn run(focus: Focus, choices: &[u8], _strict: bool) -> Outcome {
           rr.matched = true;
           rr.acked_base = 0;
           rr.pending.clear();
+          rr.pending_frags.clear();
+          rr.matched_after = last_sn;
           rr.frag_rx.clear();
           rr.gapped.clear();
           rr.gap_below = 0;
@@ -537,6 +698,10 @@ pub fn run(focus: Focus, choices: &[u8], _strict: bool) -> Outcome {
       }
       Step::Clean => {
         node.writers[wi].writer.verif_handle_cache_cleaning();
+        for rr in readers.iter_mut() {
+          // fragments of a sample that is gone cannot be sent any more: no claim
+          rr.pending_frags.retain(|s, _| node.writers[wi].writer.verif_history_get(SequenceNumber::from(*s)).is_some());
+        }
         if focus == Focus::C04 {
           check_retention(&node, wi, &readers, &written, last_sn, limit, &mut o, stepno, &mut nontrivial);
         }
@@ -645,6 +810,19 @@ pub fn run(focus: Focus, choices: &[u8], _strict: bool) -> Outcome {
         quiet_rounds = 0;
       }
     }
+    // C06 (scenario 4 reads this label): once all traffic has stopped and the timers have gone
+    // quiet, no reader proxy may still have repair fragments on request - in production the
+    // repair timer re-arms itself every millisecond for as long as one has
+    if !o.is_violation() {
+      for _ in 0..20 {
+        node.fire_writer_timers(wi);
+      }
+      let _ = hooks::capture_drain();
+      let w = &node.writers[wi].writer;
+      if w.verif_readers().iter().any(|g| w.verif_reader_proxy(*g).map_or(false, |rp| rp.repair_frags_requested())) {
+        o.label("writer-repair-frags-never-drain");
+      }
+    }
     if !o.is_violation() {
       for rr in readers.iter().filter(|r| r.matched && r.reliable) {
         if let Some(sn) = rr.pending.iter().next() {
@@ -657,6 +835,17 @@ pub fn run(focus: Focus, choices: &[u8], _strict: bool) -> Outcome {
             if held { "still in the history" } else { "no longer in the history" },
             rr.locator,
             rr.pending
+          );
+          break;
+        }
+        if let Some((sn, fr)) = rr.pending_frags.iter().find(|(s, _)| node.writers[wi].writer.verif_history_get(SequenceNumber::from(**s)).is_some()) {
+          fail!(
+            "c04.request-unanswered",
+            "fragments",
+            "reader {} asked by NACKFRAG for fragments {fr:?} of sample {sn}, which is still in the history, but after the repair timers went quiet they were not sent to {:?}; outstanding {:?}",
+            rr.idx,
+            rr.locator,
+            rr.pending_frags
           );
           break;
         }
@@ -686,6 +875,7 @@ fn lose(rr: &mut RemoteReader, waits: &mut [WaitState], o: &mut Outcome) {
   }
   rr.matched = false;
   rr.pending.clear();
+  rr.pending_frags.clear();
   rr.frag_rx.clear();
   rr.must_be_gapped.clear();
   rr.acked_since_single.clear();
